@@ -285,14 +285,17 @@ def gen_blocks(rng, d):
 
 
 def gen_expdecay(rng, dx):
+    low = rng.random() < 0.3       # values near the lower ends of the boxes
     return dict(base=gen_matern(rng, dx), mu=rng.choice([0.0, rng.uniform(-1, 1)]),
-                alpha=loguniform(rng, 0.2, 5), mean_lam=loguniform(rng, 0.05, 5), gamma=rng.uniform(0.05, 0.95),
+                alpha=loguniform(rng, 1e-3, 0.05) if low else loguniform(rng, 0.2, 5),
+                mean_lam=loguniform(rng, 2e-4, 5e-3) if low else loguniform(rng, 0.05, 5),
+                gamma=loguniform(rng, 2e-4, 5e-3) if low else rng.uniform(0.05, 0.95),
                 delta=rng.choice([None, 0.0, 1.0, rng.uniform(0.05, 0.95)]), delta_free=rng.uniform(0.05, 0.95))
 
 
 def gen_spec(rng):
     sub = rng.choice(["warp", "warp", "warp", "product", "range", "expdecay", "matern", "warp_outer", "warp_outer"])
-    spec = dict(sub=sub, install=rng.choice(["dict", "direct"]))
+    spec = dict(sub=sub, install=rng.choice(["dict", "direct"]), enc=rng.choice(["logarithm", "logarithm", "positive"]))
     highd = False
     if sub == "matern":
         # plain Matern-5/2, mostly ARD in HIGH dimension (parameter names inv_bw10.. sort before inv_bw2)
@@ -357,13 +360,17 @@ def gen_spec(rng):
 # --------------------------------------------------------------------------
 # building the real objects + the matching reference
 # --------------------------------------------------------------------------
+ENC_TOL = {"logarithm": 16 * EPS, "positive": 1e-12}
+_enc = ["logarithm"]          # encoding of the kernel currently being built (set by build)
+
+
 def check_installed(issues, label, got, intended):
     """every hyper-parameter read back through the public get_params equals the requested value (the encodings
     move a value by at most a few ulp)"""
     for k_, v in intended.items():
         if k_ not in got:
             issues.append(("%s: get_params has no entry %r" % (label, k_), "param_roundtrip"))
-        elif not abs(float(got[k_]) - float(v)) <= 16 * EPS * abs(float(v)):
+        elif not abs(float(got[k_]) - float(v)) <= ENC_TOL[_enc[0]] * max(abs(float(v)), 1e-3):
             issues.append(("%s: parameter %s reads back as %r, requested %r" % (label, k_, float(got[k_]), float(v)),
                            "param_roundtrip"))
     extra = sorted(set(got) - set(intended))
@@ -377,8 +384,9 @@ def check_roundtrip(issues, label, obj, fresh):
     o2 = fresh()
     o2.set_params(dict(p))
     p2 = {k_: float(v) for k_, v in o2.get_params().items()}
-    if sorted(p) != sorted(p2) or any(not abs(p2[k_] - p[k_]) <= 16 * EPS * abs(p[k_]) for k_ in p):
-        bad = [k_ for k_ in p if k_ not in p2 or not abs(p2[k_] - p[k_]) <= 16 * EPS * abs(p[k_])]
+    tol_ = ENC_TOL[_enc[0]]
+    if sorted(p) != sorted(p2) or any(not abs(p2[k_] - p[k_]) <= tol_ * max(abs(p[k_]), 1e-3) for k_ in p):
+        bad = [k_ for k_ in p if k_ not in p2 or not abs(p2[k_] - p[k_]) <= tol_ * max(abs(p[k_]), 1e-3)]
         issues.append(("%s: set_params(get_params()) on a fresh object changes %s" % (label, bad[:4]), "param_roundtrip"))
 
 
@@ -395,7 +403,7 @@ def build_matern(ms, how="dict", issues=None):
     from syne_tune.optimizer.schedulers.searchers.bayesopt.gpautograd.kernel import Matern52
 
     def fresh():
-        k_ = Matern52(ms["d"], ARD=ms["ard"])
+        k_ = Matern52(ms["d"], ARD=ms["ard"], encoding_type=_enc[0])
         k_.collect_params().initialize()
         return k_
     k = fresh()
@@ -420,7 +428,7 @@ def build_warped(kernel, ref, blocks, d, how="dict", issues=None, fresh_inner=No
     def pname(i, size, kind, j):
         pref = "warping_" if len(blocks) == 1 else "warping%d_" % i
         return pref + ("power_%s" % kind if size == 1 else "power_%s_%d" % (kind, j))
-    warpings = [Warping(d, coordinate_range=(b["lo"], b["up"])) for b in blocks]
+    warpings = [Warping(d, coordinate_range=(b["lo"], b["up"]), encoding_type=_enc[0]) for b in blocks]
     wk = WarpedKernel(kernel=kernel, warpings=warpings)
     wk.collect_params().initialize()
     prm = {"kernel_" + k_: float(v) for k_, v in kernel.get_params().items()}
@@ -440,7 +448,7 @@ def build_warped(kernel, ref, blocks, d, how="dict", issues=None, fresh_inner=No
         check_installed(issues, "WarpedKernel(%d blocks) via %s" % (len(blocks), how), got, prm)
         if fresh_inner is not None:
             def fresh():
-                w2 = WarpedKernel(kernel=fresh_inner(), warpings=[Warping(d, coordinate_range=(b["lo"], b["up"]))
+                w2 = WarpedKernel(kernel=fresh_inner(), warpings=[Warping(d, coordinate_range=(b["lo"], b["up"]), encoding_type=_enc[0])
                                                                   for b in blocks])
                 w2.collect_params().initialize()
                 return w2
@@ -467,7 +475,7 @@ def build_expdecay(ed, how, issues):
     from syne_tune.optimizer.schedulers.searchers.bayesopt.gpautograd.kernel import ExponentialDecayResourcesKernelFunction
     k0, r0 = build_matern(ed["base"], how, issues)
     mx, mu = scalar_mean(ed["mu"] if ed["mu"] != 0.0 else None)
-    kern = ExponentialDecayResourcesKernelFunction(k0, mx, delta_fixed_value=ed["delta"])
+    kern = ExponentialDecayResourcesKernelFunction(k0, mx, delta_fixed_value=ed["delta"], encoding_type=_enc[0])
     kern.collect_params().initialize()
     prm = {"kernelx_" + k_: float(v) for k_, v in k0.get_params().items()}
     if ed["mu"] != 0.0:
@@ -477,7 +485,14 @@ def build_expdecay(ed, how, issues):
         prm["delta"] = ed["delta_free"]
     kern.set_params(dict(prm))
     got = kern.get_params()
-    check_installed(issues, "ExponentialDecayResourcesKernelFunction", got, prm)
+    check_installed(issues, "ExponentialDecayResourcesKernelFunction(encoding=%s)" % _enc[0], got, prm)
+
+    def fresh_ed():
+        k_ = ExponentialDecayResourcesKernelFunction(build_matern(ed["base"])[0], scalar_mean(ed["mu"] if ed["mu"] != 0.0 else None)[0],
+                                                     delta_fixed_value=ed["delta"], encoding_type=_enc[0])
+        k_.collect_params().initialize()
+        return k_
+    check_roundtrip(issues, "ExponentialDecayResourcesKernelFunction(encoding=%s)" % _enc[0], kern, fresh_ed)
     delta = float(got["delta"]) if ed["delta"] is None else float(ed["delta"])
     ref = RefExpDecay(r0, ed["base"]["d"], mu, got["alpha"], got["mean_lam"], got["gamma"], delta)
     return kern, ref
@@ -488,6 +503,7 @@ def build(spec, issues=None):
     from syne_tune.optimizer.schedulers.searchers.bayesopt.gpautograd.kernel import (
         ProductKernelFunction, RangeKernelFunction, ExponentialDecayResourcesMeanFunction)
     issues = [] if issues is None else issues
+    _enc[0] = spec.get("enc", "logarithm")
     how = spec.get("install", "dict")
     sub = spec["sub"]
     if sub == "matern":
@@ -554,6 +570,7 @@ def run_case(ctx, spec, ck_cases=None, ck_meta=None):
     for what_, q_ in issues:
         viol(what_, q_)
     ctx.h("composite_install", spec.get("install", "dict"))
+    ctx.h("composite_encoding", spec.get("enc", "logarithm"))
     ctx.h("composite_dim", "D>=11" if D >= 11 else "D<=6")
     ctx.h("composite_kernel", sub if sub != "warp" else "warp_%d_block%s" % (nblocks, "" if nblocks == 1 else "s"))
     nrm = lambda a: float(np.linalg.norm(a))   # noqa: E731
